@@ -304,4 +304,78 @@ def c10(ctx):
     )
 
 
-PROPS = {"C09": c09, "C10": c10, "C11": c11, "C13": c13, "C14": c14, "C05": c05, "C20": c20, "C16": c16, "C17": c17, "C04": c04, "C03": c03}
+def c06(ctx):
+    prog = ctx.prog("dev")
+    names = ("mean", "weighted_sum", "weighted_mean", "weighted_sum_axis", "weighted_mean_axis", "harmonic_mean", "geometric_mean")
+    roots = [prog.method("SummaryStatisticsExt", n) for n in names]
+    pairs = RL.rule_r9(ctx, prog, roots)
+    ctx.floor("R9", len(pairs), 2, "data/weights zips")
+    na = RL.rule_r8(ctx, prog, roots)
+    ctx.floor("R8", na, 2, "axis arguments")
+    RL.rule_r1(ctx, prog, scope=lambda b: "summary_statistics::" in b.key)
+    only = {("SummaryStatisticsExt", n) for n in names}
+    n, e = RG.rule_r6(ctx, prog, only=only)
+    ctx.floor("R6", n, 7, "mean-family routines in the decision table")
+    RT.rule_c06(ctx, prog)
+    return dict(
+        level="other",
+        explanation="(R9/R1/R8) data are paired with weights by logical index (undisturbed iter().zip(weights), no layout API, axis passed "
+                    "through); (R19) the value each routine returns is extracted from MIR and compared by a CAS with the definition in exact "
+                    "arithmetic: mean = (Σx)/from_usize(len) with the type's own Div, weighted_sum = Σ d·w accumulated from zero() (fold or "
+                    "for-loop idiom), weighted_mean = weighted_sum/Σw, harmonic = recip((Σ recip x)/n), geometric = exp((Σ ln x)/n); "
+                    "(R13) weighted_sum_axis reduces each lane with a kernel operation-identical to weighted_sum's, paired with the caller's "
+                    "weights, and weighted_mean_axis divides it elementwise by weights.sum(). The float clause follows from the standard "
+                    "recursive-summation bound given this skeleton (one rounding-bounded term per element, plain summation); the bound "
+                    "itself, overflow and the achieved constant are not decided.",
+    )
+
+
+def c07(ctx):
+    prog = ctx.prog("dev")
+    names = ("weighted_var", "weighted_std", "weighted_var_axis", "weighted_std_axis", "central_moment", "central_moments",
+             "kurtosis", "skewness")
+    roots = [prog.method("SummaryStatisticsExt", n) for n in names] + [prog.find("summary_statistics::means::inner_weighted_var")]
+    pairs = RL.rule_r9(ctx, prog, roots)
+    ctx.floor("R9", len(pairs), 1, "data/weights zip in the West loop")
+    na = RL.rule_r8(ctx, prog, roots)
+    ctx.floor("R8", na, 2, "axis arguments")
+    only = {("SummaryStatisticsExt", n) for n in names}
+    n, e = RG.rule_r6(ctx, prog, only=only)
+    ctx.floor("R6", n, 8, "variance/moment routines in the decision table")
+    RT.rule_c07(ctx, prog)
+    return dict(
+        level="other",
+        explanation="(R19) the loop of inner_weighted_var is extracted from MIR as the recurrence W'=W+w, m'=m+(w/W')(x−m), "
+                    "S'=S+w(x−m)(x−m') and a CAS proves by induction over abstract sums (A=Σw, B=Σwx, C=Σwx²) that it maintains m=B/A, "
+                    "S=C−B²/A from the zero state and that the returned S/(W−ddof) equals Σw(x−x̄_w)²/(Σw−ddof) in exact arithmetic – "
+                    "including that ddof reaches the denominator; kurtosis = μ4/μ2², skewness = μ3/(√μ2)³ on central_moments(4|3); "
+                    "(R13) order 0 ⇒ one(), order 1 ⇒ zero() as constants in both moment routines; weighted_var hands (self, weights, ddof, "
+                    "zero) to the kernel and weighted_var_axis maps the same kernel over lanes with the caller's weights/ddof; std = sqrt∘var; "
+                    "(R6) guards and ddof assertion order; (R9/R8) pairing and axis. Not decided: forward-error bounds, the sign guarantee, "
+                    "the general-order shift/powi/binomial/Horner pipeline beyond shared kernels (see C18).",
+    )
+
+
+def c12(ctx):
+    prog = ctx.prog("dev")
+    RT.rule_r17(ctx, prog)
+    RT.rule_c12_structure(ctx, prog)
+    only = {k for k in RG.TABLE if "strategies" in k[0] or "GridBuilder" in k[0]}
+    n, e = RG.rule_r6(ctx, prog, only=only)
+    ctx.floor("R6", n, 7, "strategy constructors in the decision table")
+    RG.rule_from_impls(ctx, prog)
+    roots = [b for b in all_roots(prog) if "histogram::strategies" in b.key or "GridBuilder" in b.key]
+    RL.rule_r8(ctx, prog, roots)
+    return dict(
+        level="other",
+        explanation="(R17) in EquiSpaced the edge whose comparison with max ends the counting in n_bins() and the edge pushed by build() are "
+                    "extracted from MIR as functions of their loop counters and must be the same operation DAG (a necessary condition for "
+                    "floating-point element types: two different rounding sequences disagree for some data), build() iterates 0..=n_bins(), "
+                    "edge(0) = min and edge(i+1) − edge(i) = bin_width (CAS); (R11) every EquiSpaced is built by EquiSpaced::new under the "
+                    "dominating guard width > 0 ∧ min < max, struct private; (R13) the four strategies pass a.min()/a.max() in that order and "
+                    "delegate build/n_bins to the shared builder, Auto dispatches per variant; (R6) empty ⇒ EmptyInput, guard ⇒ Strategy. "
+                    "Not decided: covering of the maximum for floats beyond formula agreement, termination for floats.",
+    )
+
+
+PROPS = {"C06": c06, "C12": c12, "C07": c07, "C09": c09, "C09": c09, "C10": c10, "C11": c11, "C13": c13, "C14": c14, "C05": c05, "C20": c20, "C16": c16, "C17": c17, "C04": c04, "C03": c03}
